@@ -345,3 +345,73 @@ func verifC16_SessionPersist() {
 		verifAssert(got == []string{"0", "1", "2", "3"}[changes], "store-ends-with-the-latest-session-state")
 	}
 }
+
+// ---- subscriptions of a client over its connection life -------------------------------------
+
+func vSubscribePacket(id uint16, topics []string, qoss []byte) *packets.SubscribePacket {
+	sub := packets.NewControlPacket(packets.Subscribe).(*packets.SubscribePacket)
+	sub.Topics, sub.Qoss, sub.MessageID = topics, qoss, id
+	return sub
+}
+
+func vRoutedQoS(b *Broker, topic, cid string) (byte, bool) {
+	subs, _ := b.topicMgr.findSubscribers(topic)
+	q, ok := subs[cid]
+	return q, ok
+}
+
+// verifC14_ClientSubscriptions: through the REAL connection handling (handleConn, readLoop,
+// processSubscribe, closeAndDelSession): a client subscribes two filters with different QoS,
+// possibly sends a SUBSCRIBE with a malformed filter in between, and drops. While connected
+// it is routed with the QoS it asked for; after the drop nothing of it is left in the routing
+// table; after a reconnect with cleanSession=false every filter is back WITH ITS OWN QoS, and
+// the malformed filter was never accepted.
+func verifC14_ClientSubscriptions() {
+	b := vC16Broker(0)
+	q1, q2 := byte(verifInt("qos.f1", 0, 1)), byte(verifInt("qos.f2", 0, 1))
+	connect := func(clean bool) *vConn { return vConnect("c", clean, "") }
+	c1 := connect(false)
+	c1.script = append(c1.script, vSubscribePacket(1, []string{"a/1"}, []byte{q1}))
+	malformed := verifBool("malformedSubscribeInBetween")
+	if malformed {
+		c1.script = append(c1.script, vSubscribePacket(2, []string{"zz/#/x"}, []byte{1}))
+		verifCover("malformed-subscribe")
+	}
+	c1.script = append(c1.script, vSubscribePacket(3, []string{"b/+"}, []byte{q2}))
+	go b.handleConn(c1)
+	verifQuiesce()
+	verifAssert(c1.connack == int(packets.Accepted), "connected")
+	g1, ok1 := vRoutedQoS(b, "a/1", "c")
+	g2, ok2 := vRoutedQoS(b, "b/x", "c")
+	if !malformed {
+		verifAssert(ok1 && g1 == q1 && ok2 && g2 == q2, "routed-with-the-qos-of-its-own-subscription")
+	} else {
+		// the connection may be kept or ended after the malformed SUBSCRIBE; what was
+		// subscribed before it is routed as long as the client is connected
+		if cl := b.clients["c"]; cl != nil && !cl.disconnected() {
+			verifAssert(ok1 && g1 == q1, "routed-with-the-qos-of-its-own-subscription")
+		}
+	}
+	if s := b.sessMgr.get("c"); s != nil {
+		_, has := s.info.Topics["zz/#/x"]
+		verifAssert(!has, "malformed-filter-is-not-recorded-in-the-session")
+	}
+	close(c1.drop)
+	verifQuiesce()
+	_, r1 := vRoutedQoS(b, "a/1", "c")
+	_, r2 := vRoutedQoS(b, "b/x", "c")
+	verifAssert(!r1 && !r2, "no-routing-residue-after-the-client-is-gone")
+	// reconnect, resuming the session
+	c2 := connect(false)
+	go b.handleConn(c2)
+	verifQuiesce()
+	if c2.connack == int(packets.Accepted) && !malformed {
+		g1, ok1 = vRoutedQoS(b, "a/1", "c")
+		g2, ok2 = vRoutedQoS(b, "b/x", "c")
+		verifAssert(ok1 && ok2, "resumed-session-restores-every-subscription")
+		verifAssert(g1 == q1 && g2 == q2, "resumed-subscriptions-keep-their-own-qos")
+		if q1 != q2 {
+			verifCover("filters-with-different-qos-resumed")
+		}
+	}
+}
